@@ -529,6 +529,9 @@ mod imp {
     }
 
     pub fn run(args: &Args) -> Report {
+        if args.stage == "proxy" {
+            return crate::c01_cli::run_c05_proxy(args);
+        }
         let rep = Report::new(
             args,
             "c05-raw-peer-recording",
